@@ -230,6 +230,38 @@ template<typename Fn> std::string probe_in_child(Fn&& fn, std::string& report) {
   return kind;
 }
 
+// An operand (of a type other than the pool's, e.g. a sketch fed to a union) that was consumed by an rvalue
+// merge / set-operation update must remain assignable: assign `live` to it by copy or by move (probed in a
+// forked child first, throttled), require the read-out of `live`, then let `after` reset / update it further.
+// Called from inside adapters (a LibScope is open); reports under the family of the program in flight.
+inline std::string first_diff(const std::string& a, const std::string& b);
+template<typename Sk, typename ReadFn, typename AfterFn>
+void reuse_consumed_operand(Sk& consumed, Sk& live, Rng& r, ReadFn read, AfterFn after) {
+  const std::string fam = c19ctx().family;
+  const bool by_copy = r.coin();
+  const std::string op = by_copy ? "copy-assign" : "move-assign";
+  static std::map<std::string, std::pair<uint64_t, bool>> seen;
+  bool do_probe;
+  { Exempt e; auto& st = seen[fam + op]; do_probe = st.second || st.first < 4 || st.first % 8 == 0; st.first++; }
+  if (do_probe) {
+    std::string report;
+    const std::string died = probe_in_child([&] { if (by_copy) consumed = static_cast<const Sk&>(live); else consumed = std::move(live); (void)read(consumed); }, report);
+    if (!died.empty()) {
+      { Exempt e; seen[fam + op].second = true; }
+      c19_fail("consumed-by-rvalue-merge|" + op + "-to-consumed-operand|aborts|" + died, "assigning to an operand consumed by an rvalue merge / set-operation update kills the process (forked child): " + report);
+      xcount(fam + ".probe_caught_abort");
+      return;
+    }
+  }
+  const std::string want = read(live);
+  if (by_copy) consumed = static_cast<const Sk&>(live); else consumed = std::move(live);
+  const std::string got = read(consumed);
+  checked();
+  if (got != want) c19_fail("consumed-by-rvalue-merge|" + op + "-to-consumed-operand|differs-from-source", first_diff(want, got));
+  after(consumed);
+  xcount(fam + ".assign_to_operand_consumed_by_rvalue_merge");
+}
+
 // ------------------------------------------------------------------ pool slot
 template<typename Obj> struct Slot {
   alignas(Obj) unsigned char mem[sizeof(Obj)];
@@ -406,9 +438,11 @@ template<typename F> struct Program {
     verify_all("copy-construct");
   }
   // what happens to an object that has just been moved from
-  void dispose_moved_from(S* x, int depth = 0) {
+  // from_merge: x was consumed as the rvalue operand of a merge -- it must stay destructible, assignable
+  // (copy and move, from an object of the same or another configuration) and usable afterwards
+  void dispose_moved_from(S* x, int depth = 0, bool from_merge = false) {
     x->valid = false; x->ro.clear();
-    const uint64_t c = r.below(10);
+    const uint64_t c = from_merge ? 2 + r.below(8) : r.below(10);   // consumed merge operands are mostly assigned to
     if (c < 4 || depth > 1) { destroy(x, "destroy-moved-from"); return; }
     if (c < 6) { cnt("moved_from_left_in_pool"); return; }          // later ops may assign to it or destroy it
     S* z = pick_valid(x);
@@ -421,7 +455,9 @@ template<typename F> struct Program {
       x->valid = true;
       expect_eq(*x, z->ro, "moved-from|copy-assign-to-moved-from-differs", "object revived by copy assignment differs from the source");
       cnt("copy_assign_to_moved_from");
+      if (from_merge) cnt("assign_to_operand_consumed_by_rvalue_merge");
       verify_all("copy-assign-to-moved-from");
+      if (from_merge && r.coin()) op_mutate(x);
     } else {
       tr("move-assign-to-moved-from#" + std::to_string(find_idx(x)) + "=#" + std::to_string(find_idx(z)));
       const std::string want = z->ro;
@@ -430,8 +466,10 @@ template<typename F> struct Program {
       x->valid = true;
       expect_eq(*x, want, "moved-from|move-assign-to-moved-from-differs", "object revived by move assignment differs from the source's former state");
       cnt("move_assign_to_moved_from");
+      if (from_merge) cnt("assign_to_operand_consumed_by_rvalue_merge");
       dispose_moved_from(z, depth + 1);
       verify_all("move-assign-to-moved-from");
+      if (from_merge && find_idx(x) >= 0 && x->valid && r.coin()) op_mutate(x);   // x may have been recycled while z was disposed of
     }
   }
   void op_move_ctor(S* x) {
@@ -546,7 +584,7 @@ template<typename F> struct Program {
     { LibScope ls("merge-by-move"); F::merge_move(x->o(), std::move(y->o()), cfg); }
     x->ro = read(*x);
     cnt("merge_move"); count(fam + ".mode_" + F::mode(x->co(), cfg));
-    dispose_moved_from(y);
+    dispose_moved_from(y, 0, true);
     verify_all("merge-by-move", x);
   }
   void op_reset(S* x) {
